@@ -84,7 +84,7 @@ class _CloseLevel:
 
 
 class Fitter:
-    __slots__ = ("from__", "frontier", "placed", "to_", "unplaced")
+    __slots__ = ("from__", "frontier", "min_depth", "placed", "to_", "unplaced")
 
     def __init__(self, from__: ResolvedPos, to_: ResolvedPos, slice: Slice) -> None:
         self.to_ = to_
@@ -101,6 +101,17 @@ class Fitter:
         self.placed: Fragment = Fragment.empty
         for i in range(from__.depth, 0, -1):
             self.placed = Fragment.from_(from__.node(i).copy(self.placed))
+
+        # When both ends of the range sit inside the same isolating node,
+        # content is never placed outside of it.
+        self.min_depth = 0
+        for i in range(min(from__.depth, to_.depth), 0, -1):
+            if (
+                from__.node(i).type.spec.get("isolating")
+                and from__.start(i) == to_.start(i)
+            ):
+                self.min_depth = i
+                break
 
     @property
     def depth(self) -> int:
@@ -177,7 +188,7 @@ class Fitter:
                     parent = None
                     fragment = self.unplaced.content
                 first = fragment.first_child
-                for frontier_depth in range(self.depth, -1, -1):
+                for frontier_depth in range(self.depth, self.min_depth - 1, -1):
                     type_ = self.frontier[frontier_depth].type
                     match = self.frontier[frontier_depth].match
 
